@@ -128,8 +128,40 @@ func genLattice(g *Rng, idx uint64) *Plan {
 	}
 	st.Classes = []string{"resp-issue:" + digit(0), "as0-issue:" + digit(1), "as0-nb:" + digit(2), "as0-noa:" + digit(3), "as0-conf0:" + digit(4), "as0-conf1:" + digit(5)}
 	spec.Assertions = []AsrtSpec{a}
+	if g.Bool(0.12) {
+		spec.NSDecls = winNSDecls(g, x)
+	}
 	st.Spec = spec
 	return &Plan{Knobs: mustJSON(k), Steps: []json.RawMessage{mustJSON(st)}}
+}
+
+// winNSDecls draws unused namespace declarations whose prefixes are the names of the instants the checks read and whose values are
+// instants that would change every verdict if anybody took them for those attributes (x: the validator's clock at delivery, ms after t0).
+func winNSDecls(g *Rng, x int64) []NSDecl {
+	day := int64(86_400_000)
+	all := []NSDecl{
+		{On: "Response", Prefix: "IssueInstant", Value: fmt.Sprintf("@ms:%d", x)},
+		{On: "Assertion", Prefix: "IssueInstant", Value: fmt.Sprintf("@ms:%d", x)},
+		{On: "Conditions", Prefix: "NotOnOrAfter", Value: fmt.Sprintf("@ms:%d", x+day)},
+		{On: "Conditions", Prefix: "NotBefore", Value: fmt.Sprintf("@ms:%d", x-day)},
+		{On: "SubjectConfirmationData", Prefix: "NotOnOrAfter", Value: fmt.Sprintf("@ms:%d", x+day)},
+	}
+	if g.Bool(0.3) {
+		// ... or that would condemn a response inside every window
+		all = []NSDecl{
+			{On: "Response", Prefix: "IssueInstant", Value: fmt.Sprintf("@ms:%d", x-400*day)},
+			{On: "Conditions", Prefix: "NotOnOrAfter", Value: fmt.Sprintf("@ms:%d", x-day)},
+			{On: "Conditions", Prefix: "NotBefore", Value: fmt.Sprintf("@ms:%d", x+day)},
+			{On: "SubjectConfirmationData", Prefix: "NotOnOrAfter", Value: fmt.Sprintf("@ms:%d", x-day)},
+		}
+	}
+	var out []NSDecl
+	for _, d := range all {
+		if g.Bool(0.6) {
+			out = append(out, d)
+		}
+	}
+	return out
 }
 
 func genWindows(g *Rng, tier string) *Plan {
@@ -228,6 +260,9 @@ func genWindows(g *Rng, tier string) *Plan {
 			for ai := range spec.Assertions {
 				spec.Assertions[ai].Pretty = true
 			}
+		}
+		if g.Bool(0.12) {
+			spec.NSDecls = winNSDecls(g, x)
 		}
 		st.Spec = spec
 		p.Steps = append(p.Steps, mustJSON(st))
